@@ -204,6 +204,11 @@ def gen_case(rng, cfg, big_ok, idx):
     elif proto.startswith("http") and not use_cache and "gz" not in opts and rng.random() < 0.15:
         # application announces the exact length itself
         script.append("L%d" % total)
+    if proto.startswith("http") and not raw and not use_cache and "L" not in "".join(o[0] for o in script) and rng.random() < 0.03:
+        # one final write of >= 100000 bytes: format_output announces the length it computed itself
+        body_ops = ["w%d.%d" % (rng.choice((99999, 100000, 123456, 204800)), rng.randrange(1, 100000))]
+        if not is_async:
+            script.append("b204800")
     script += body_ops
     if use_cache and rng.random() < 0.85:
         script.append("T" + key)
